@@ -2396,6 +2396,27 @@ def policy(repo, tier):
                 # any other unrecognised shape is left to the native replayer (protected attachments)
                 obls.append(ground_obligation(oid, verdict is not False, why, DT, definite=bool(verdict is False and swallows)))
         fns.append(dict(m.fn_info("EmailContent.iterate_supported_attachments"), obligations=1))
+    # P6: the pypdf reader is constructed WITHOUT a password (ASSUMED pypdf view, validated natively: a constructor that is
+    #     handed a password explicitly raises WrongPasswordError when it does not open the file, so a file that needs a real
+    #     password never reaches the `decrypt("") == 0 -> file-encrypted error` mapping of read_pdf).  Shape rule: other
+    #     shapes (a password expression, **kwargs, a handler mapping WrongPasswordError) are `unknown` -> native PDF pairs decide.
+    oid = "C08/pdf_extractor.py::PdfReader-constructions/policy#password-is-left-to-the-decrypt-check"
+    try:
+        m = loader.module(PDF, repo)
+        sites, odd = [], []
+        for n in ast.walk(m.tree):
+            if isinstance(n, ast.Call) and _canon(m, n).split(".")[-1] == "PdfReader" and _canon(m, n).split(".")[0] in ("pypdf", "PdfReader"):
+                sites.append(n.lineno)
+                pw = [k.value for k in n.keywords if k.arg == "password"] + list(n.args[2:3])
+                if any(k.arg is None for k in n.keywords) or any(isinstance(a, ast.Starred) for a in n.args) \
+                        or any(not (isinstance(v, ast.Constant) and v.value is None) for v in pw):
+                    odd.append(n.lineno)
+        ok = bool(sites) and not odd
+        why = f"PdfReader constructed at line(s) {sites}" + (f"; explicit password / unrecognised arguments at line(s) {odd}" if odd else ", never with a password") \
+            if sites else "no PdfReader construction found (shape not recognised)"
+    except Exception as e:  # noqa
+        ok, why = False, f"shape not recognised: {type(e).__name__}"
+    obls.append(ground_obligation(oid, ok, why, PDF, definite=False))
     return {"obligations": obls, "functions": fns}
 
 
